@@ -1,9 +1,518 @@
-// Package c04: check for property C04 (stub until implemented).
+// Package c04: resharing keeps the key, re-shares it correctly, retires old shares last (NETMC).
 package c04
 
-import "verif/internal/core"
+import (
+	"fmt"
+	"math/big"
+	"runtime"
+	"strings"
 
-// Implemented reports whether this check is built.
-const Implemented = false
+	"github.com/bnb-chain/tss-lib/v2/common"
+	"github.com/bnb-chain/tss-lib/v2/crypto"
+	eckg "github.com/bnb-chain/tss-lib/v2/ecdsa/keygen"
+	edkg "github.com/bnb-chain/tss-lib/v2/eddsa/keygen"
 
-func Run(r *core.Run) { r.Cap("not implemented") }
+	"verif/internal/core"
+	"verif/internal/explore"
+	"verif/internal/fix"
+	"verif/internal/netrun"
+	"verif/internal/oracle"
+	"verif/internal/protomc"
+	"verif/internal/ref"
+	"verif/internal/scen"
+	"verif/internal/statehash"
+)
+
+const Implemented = true
+
+// observe: what the C04 invariant needs to see of a node in every state.
+func observe(nw *netrun.Network, p int) map[string]string {
+	n := nw.Nodes[p]
+	m := map[string]string{}
+	if n.Role == "old" {
+		var xi *big.Int
+		if n.EcKey != nil {
+			xi = n.EcKey.Xi
+			m["key"] = statehash.Hash(n.EcKey)
+		} else if n.EdKey != nil {
+			xi = n.EdKey.Xi
+			m["key"] = statehash.Hash(n.EdKey)
+		}
+		if xi == nil || xi.Sign() == 0 {
+			m["erased"] = "1"
+		}
+	}
+	return m
+}
+
+func ackEmitted(s *explore.Sys, l *explore.LState) bool {
+	for _, id := range l.Emitted {
+		t := s.Msg(id).Type
+		if t == "DGRound4Message" || t == "DGRound4Message2" {
+			return true
+		}
+	}
+	return false
+}
+
+// invariant (every reachable state): (some old share erased or some new member emitted key data)
+// => every new member has emitted its round-4 ACK; and while an ACK is missing every old member's
+// caller-held key data equals its pre-run snapshot.
+func invariant(nOld int, initial []string) func(s *explore.Sys, locals []*explore.LState, viol func(key, what string, trace []string), trace func() []string) {
+	return func(s *explore.Sys, locals []*explore.LState, viol func(key, what string, trace []string), trace func() []string) {
+		allAck := true
+		for p := nOld; p < len(locals); p++ {
+			if !ackEmitted(s, locals[p]) {
+				allAck = false
+			}
+		}
+		if allAck {
+			return
+		}
+		for p := 0; p < nOld; p++ {
+			if locals[p].Obs.Extra["erased"] == "1" {
+				viol("old-share-erased-before-all-acks", fmt.Sprintf("old member %d's share is erased while a new member has not yet acknowledged", p), trace())
+			} else if locals[p].Obs.Extra["key"] != initial[p] {
+				viol("old-key-data-modified-before-all-acks", fmt.Sprintf("old member %d's caller-held key data changed while a new member has not yet acknowledged", p), trace())
+			}
+		}
+		for p := nOld; p < len(locals); p++ {
+			if len(locals[p].Obs.Ends) > 0 {
+				viol("new-key-material-emitted-before-all-acks", fmt.Sprintf("new member %d emitted key data while a new member has not yet acknowledged", p), trace())
+			}
+		}
+	}
+}
+
+func initialKeyHashes(sc protomc.Scenario) []string {
+	nw := sc.Mk()
+	var out []string
+	for p, n := range nw.Nodes {
+		if n.Role == "old" {
+			out = append(out, observe(nw, p)["key"])
+		}
+	}
+	return out
+}
+
+// terminalOracle adds the clauses that need the live end values: old-only members erased, and every
+// (t'+1)-subset of the new committee signs under the old key.
+func terminalOracle(r *core.Run, sc protomc.Scenario, signAll bool) func(protomc.TermCtx) []string {
+	base := scen.ResultOracle(sc)
+	signed := false
+	return func(tc protomc.TermCtx) []string {
+		out := base(tc)
+		if len(out) > 0 {
+			return out
+		}
+		// the sharing oracle already decides that every (t'+1)-subset interpolates to the old key in every
+		// terminal state; actually signing with the new shares is done once per configuration
+		if !signed {
+			signed = true
+			out = append(out, signWithNew(r, sc, tc, signAll)...)
+		}
+		return out
+	}
+}
+
+func signWithNew(r *core.Run, sc protomc.Scenario, tc protomc.TermCtx, all bool) []string {
+	cfg := sc.Cfg
+	var out []string
+	msg := new(big.Int).SetBytes(core.Bytes("c04-sign", 32))
+	msg.Mod(msg, ref.Secp256k1.N)
+	if cfg.Proto == netrun.EddsaResharing {
+		nOld := len(cfg.EdKeys)
+		var keys []edkg.LocalPartySaveData
+		for _, e := range tc.Ends[nOld:] {
+			keys = append(keys, *(e[0].(*edkg.LocalPartySaveData)))
+		}
+		subs := oracle.Subsets(len(keys), cfg.NewThreshold+1)
+		if !all && len(subs) > 2 {
+			subs = subs[:2]
+		}
+		for _, sub := range subs {
+			var ks []edkg.LocalPartySaveData
+			for _, i := range sub {
+				ks = append(ks, keys[i])
+			}
+			nw, err := netrun.New(netrun.Config{Proto: netrun.EddsaSigning, EdKeys: ks, Threshold: cfg.NewThreshold, Msg: msg, Seed: cfg.Seed, Label: "c04-sign"})
+			if err != nil {
+				return append(out, "new-committee-cannot-sign/constructor")
+			}
+			_, e, pan := nw.RunFIFO()
+			r.Count("signing_runs_with_new_shares", 1)
+			if e != nil || len(pan) > 0 || len(nw.Nodes[0].Ends) != 1 {
+				out = append(out, "new-committee-cannot-sign")
+				continue
+			}
+			for _, pr := range oracle.CheckEddsaSig(nw.Nodes[0].Ends[0].(*common.SignatureData), cfg.EdKeys[0].EDDSAPub, msg, 0) {
+				out = append(out, "new-committee-signature/"+pr.Key)
+			}
+		}
+		return out
+	}
+	nOld := len(cfg.EcKeys)
+	var keys []eckg.LocalPartySaveData
+	for _, e := range tc.Ends[nOld:] {
+		keys = append(keys, *(e[0].(*eckg.LocalPartySaveData)))
+	}
+	subs := oracle.Subsets(len(keys), cfg.NewThreshold+1)
+	if !all && len(subs) > 1 {
+		subs = subs[:1]
+	}
+	for _, sub := range subs {
+		var ks []eckg.LocalPartySaveData
+		for _, i := range sub {
+			ks = append(ks, keys[i])
+		}
+		nw, err := netrun.New(netrun.Config{Proto: netrun.EcdsaSigning, EcKeys: ks, Threshold: cfg.NewThreshold, Msg: msg, Seed: cfg.Seed, Label: "c04-sign"})
+		if err != nil {
+			return append(out, "new-committee-cannot-sign/constructor")
+		}
+		_, e, pan := nw.RunFIFO()
+		r.Count("signing_runs_with_new_shares", 1)
+		if e != nil || len(pan) > 0 || len(nw.Nodes[0].Ends) != 1 {
+			out = append(out, "new-committee-cannot-sign")
+			continue
+		}
+		for _, pr := range oracle.CheckEcdsaSig(nw.Nodes[0].Ends[0].(*common.SignatureData), cfg.EcKeys[0].ECDSAPub, msg, 0) {
+			out = append(out, "new-committee-signature/"+pr.Key)
+		}
+	}
+	return out
+}
+
+// oldErasedAtEnd: in terminal states the old-only members' caller-visible Xi must be 0.
+func erasedAtEnd(nOld int) func(s *explore.Sys, locals []*explore.LState, viol func(key, what string, trace []string), trace func() []string) {
+	return func(s *explore.Sys, locals []*explore.LState, viol func(key, what string, trace []string), trace func() []string) {
+		for p := 0; p < nOld; p++ {
+			if len(locals[p].Obs.Ends) == 1 && locals[p].Obs.Extra["erased"] != "1" {
+				viol("old-member-finished-with-share-intact", fmt.Sprintf("old member %d finished but its caller-visible Xi is not erased", p), trace())
+			}
+		}
+	}
+}
+
+type job struct {
+	sc      protomc.Scenario
+	mode    string
+	devs    int
+	signAll bool
+}
+
+func Run(r *core.Run) {
+	w := runtime.NumCPU()
+	var jobs []job
+	add := func(sc protomc.Scenario, mode string, devs int, signAll bool) { jobs = append(jobs, job{sc, mode, devs, signAll}) }
+	// EdDSA: all schedules for old (2,1) -> new (2,1) (every reachable state is a cut point)
+	add(scen.EdResharing(2, 1, []int{0, 1}, 2, 1, r.Seed), "", 0, true)
+	add(scen.EdResharing(3, 1, []int{0, 2}, 2, 1, r.Seed), "", 0, true)
+	// FIFO + 1 deviation: old (3,1)/(3,2), every participating old subset, new thresholds <, =, >
+	for _, o := range []struct {
+		n, t int
+	}{{3, 1}, {3, 2}} {
+		for sz := o.t + 1; sz <= o.n; sz++ {
+			for _, sub := range oracle.Subsets(o.n, sz) {
+				for _, nn := range []struct{ n, t int }{{2, 1}, {3, 1}, {3, 2}} {
+					if r.Tier == "quick" && (len(sub)+nn.n > 5 || (sub[0] != 0 && nn.t != 2)) {
+						continue
+					}
+					add(scen.EdResharing(o.n, o.t, sub, nn.n, nn.t, r.Seed), "dev", 1, r.Tier == "thorough")
+				}
+			}
+		}
+	}
+	// ECDSA, proofs enabled and disabled
+	add(scen.EcResharing(2, 1, []int{0, 1}, 2, 1, r.Seed, false), "dev", 0, false)
+	add(scen.EcResharing(2, 1, []int{0, 1}, 2, 1, r.Seed, true), "dev", 0, false)
+	if r.Tier == "thorough" {
+		add(scen.EcResharing(2, 1, []int{0, 1}, 2, 1, r.Seed, false), "dev", 1, true)
+		add(scen.EcResharing(3, 1, []int{0, 2}, 3, 2, r.Seed, false), "dev", 0, true)
+		add(scen.EcResharing(3, 2, []int{0, 1, 2}, 2, 1, r.Seed, true), "dev", 0, true)
+		add(scen.EdResharing(3, 1, []int{0, 1, 2}, 2, 1, r.Seed), "", 0, true)
+	}
+	var states, trans, traces int
+	for _, j := range jobs {
+		nOld := 0
+		if j.sc.Cfg.Proto == netrun.EddsaResharing {
+			nOld = len(j.sc.Cfg.EdKeys)
+		} else {
+			nOld = len(j.sc.Cfg.EcKeys)
+		}
+		inv := invariant(nOld, initialKeyHashes(j.sc))
+		era := erasedAtEnd(nOld)
+		o := protomc.Options{C07: true, Mode: j.mode, Deviations: j.devs, Workers: w, JointValidate: 10, Observe: observe,
+			ResultOracle: terminalOracle(r, j.sc, j.signAll),
+			OnGlobal: func(s *explore.Sys, locals []*explore.LState, viol func(key, what string, trace []string), trace func() []string) {
+				r.Count("states_with_invariant_evaluated", 1)
+				inv(s, locals, viol, trace)
+				era(s, locals, viol, trace)
+			}}
+		st := protomc.Explore(r, j.sc, o)
+		states += st.States
+		trans += st.Transitions
+		traces += st.JointReplays
+		mode := "all schedules (decomposed); every reachable state is a cut point"
+		if j.mode == "dev" {
+			mode = fmt.Sprintf("complete runs with <=%d deviations; invariant evaluated after every step", j.devs)
+		}
+		r.Distinct("terminal_outcomes", fmt.Sprintf("%s#%d", j.sc.Name, st.DistinctOutcomes))
+		r.Set("cfg:"+j.sc.Name, map[string]interface{}{"mode": mode, "states": st.States, "transitions": st.Transitions, "terminal_states_or_runs": st.Terminals, "joint_replays": st.JointReplays})
+		if len(st.Samples) > 0 {
+			r.Sample(5, st.Samples[0])
+		}
+		if st.Capped {
+			r.Cap("cap in " + j.sc.Name)
+		}
+		fmt.Printf("  %-62s %s states=%d trans=%d runs/terminals=%d\n", j.sc.Name, j.mode, st.States, st.Transitions, st.Terminals)
+	}
+	faults(r)
+	chains(r)
+	r.Set("states", states)
+	r.Set("transitions", trans)
+	r.Set("traces_validated_against_impl", traces)
+	r.Assume("party independence validated by joint replays; in deviation mode every run is a joint run of the implementation")
+	r.Assume("new committee ids (101, 102, ...) are distinct from the old committee's ids, as the property requires")
+}
+
+// faults: a new member never accepts shares whose combination does not match the key it was told.
+func faults(r *core.Run) {
+	type variant struct {
+		name   string
+		tamper func(cfg *netrun.Config)
+	}
+	G := func(c *ref.Curve) ref.Point { return c.G() }
+	_ = G
+	edVariants := []variant{
+		{"old-member-0-announces-another-key", func(cfg *netrun.Config) {
+			k := cfg.EdKeys[0]
+			p2, _ := k.EDDSAPub.Add(crypto.ScalarBaseMult(k.EDDSAPub.Curve(), big.NewInt(1)))
+			cfg.EdKeys[0].EDDSAPub = p2
+		}},
+		{"old-member-1-uses-wrong-share", func(cfg *netrun.Config) {
+			cfg.EdKeys[1].Xi = new(big.Int).Add(cfg.EdKeys[1].Xi, big.NewInt(1))
+		}},
+	}
+	for _, v := range edVariants {
+		sc := scen.EdResharing(3, 1, []int{0, 2}, 2, 1, r.Seed)
+		cfg := sc.Cfg
+		cfg.EdKeys = append([]edkg.LocalPartySaveData{}, cfg.EdKeys...)
+		v.tamper(&cfg)
+		nw, err := netrun.New(cfg)
+		if err != nil {
+			r.Cap("fault scenario could not be built: " + err.Error())
+			continue
+		}
+		nw.RunFIFO()
+		r.Count("fault_runs", 1)
+		for p, n := range nw.Nodes {
+			if n.Role == "new" && len(n.Ends) > 0 {
+				r.Violate("eddsa-resharing/fault/"+v.name+"/new-member-accepted", fmt.Sprintf("new member %d emitted key data although the shares do not combine to the announced key", p), v.name)
+			}
+			if n.Role == "old" && n.EdKey.Xi.Sign() == 0 {
+				r.Violate("eddsa-resharing/fault/"+v.name+"/old-share-erased", fmt.Sprintf("old member %d erased its share although the new committee did not complete", p), v.name)
+			}
+		}
+	}
+	ecVariants := []variant{
+		{"old-member-0-announces-another-key", func(cfg *netrun.Config) {
+			k := cfg.EcKeys[0]
+			p2, _ := k.ECDSAPub.Add(crypto.ScalarBaseMult(k.ECDSAPub.Curve(), big.NewInt(1)))
+			cfg.EcKeys[0].ECDSAPub = p2
+		}},
+		{"old-member-1-uses-wrong-share", func(cfg *netrun.Config) {
+			cfg.EcKeys[1].Xi = new(big.Int).Add(cfg.EcKeys[1].Xi, big.NewInt(1))
+		}},
+	}
+	for _, v := range ecVariants {
+		sc := scen.EcResharing(2, 1, []int{0, 1}, 2, 1, r.Seed, true)
+		cfg := sc.Cfg
+		cfg.EcKeys = append([]eckg.LocalPartySaveData{}, cfg.EcKeys...)
+		v.tamper(&cfg)
+		nw, err := netrun.New(cfg)
+		if err != nil {
+			r.Cap("fault scenario could not be built: " + err.Error())
+			continue
+		}
+		nw.RunFIFO()
+		r.Count("fault_runs", 1)
+		for p, n := range nw.Nodes {
+			if n.Role == "new" && len(n.Ends) > 0 {
+				r.Violate("ecdsa-resharing/fault/"+v.name+"/new-member-accepted", fmt.Sprintf("new member %d emitted key data although the shares do not combine to the announced key", p), v.name)
+			}
+			if n.Role == "old" && n.EcKey.Xi.Sign() == 0 {
+				r.Violate("ecdsa-resharing/fault/"+v.name+"/old-share-erased", fmt.Sprintf("old member %d erased its share although the new committee did not complete", p), v.name)
+			}
+		}
+	}
+}
+
+// chains: successive resharings over the threshold-change alphabet {<,=,>} followed by signing with
+// every (t'+1)-subset of the last committee.
+func chains(r *core.Run) {
+	maxLen := 2
+	alphabet := []string{"<", "=", ">"}
+	var seqs [][]string
+	var rec func(cur []string)
+	rec = func(cur []string) {
+		if len(cur) > 0 {
+			seqs = append(seqs, append([]string{}, cur...))
+		}
+		if len(cur) == maxLen {
+			return
+		}
+		for _, a := range alphabet {
+			rec(append(cur, a))
+		}
+	}
+	rec(nil)
+	base := scen.EdKey("small", 4, 2, r.Seed)
+	pub := base[0].EDDSAPub
+	msg := new(big.Int).SetBytes(core.Bytes("c04-chain", 32))
+	for _, seq := range seqs {
+		keys := scen.CopyEdKeys(base)
+		t, n := 2, 4
+		ok := true
+		for step, op := range seq {
+			t2 := t
+			switch op {
+			case "<":
+				t2 = t - 1
+			case ">":
+				t2 = t + 1
+			}
+			if t2 < 1 {
+				ok = false
+				break
+			}
+			n2 := t2 + 2
+			var newKeys []*big.Int
+			for i := 0; i < n2; i++ {
+				newKeys = append(newKeys, big.NewInt(int64(1000*(step+1)+i+1)))
+			}
+			// the first t+1 holders take part
+			cfg := netrun.Config{Proto: netrun.EddsaResharing, EdKeys: keys[:t+1], Threshold: t, OldN: n, NewKeys: newKeys, NewThreshold: t2, Seed: r.Seed, Label: strings.Join(seq, "") + fmt.Sprint(step)}
+			nw, err := netrun.New(cfg)
+			if err != nil {
+				r.Violate("chain/constructor", err.Error(), seq)
+				ok = false
+				break
+			}
+			_, e, pan := nw.RunFIFO()
+			if e != nil || len(pan) > 0 {
+				r.Violate("eddsa-resharing/chain/"+strings.Join(seq, "")+"/error", fmt.Sprint(e, pan), seq)
+				ok = false
+				break
+			}
+			var next []edkg.LocalPartySaveData
+			var parts []oracle.Sharing
+			for _, nd := range nw.Nodes {
+				if nd.Role == "new" {
+					if len(nd.Ends) != 1 {
+						r.Violate("eddsa-resharing/chain/no-result", "new member without a result", seq)
+						ok = false
+						break
+					}
+					s := nd.Ends[0].(*edkg.LocalPartySaveData)
+					next = append(next, *s)
+					parts = append(parts, oracle.EdSharing(s))
+				}
+			}
+			if !ok {
+				break
+			}
+			want := ref.Point{X: pub.X(), Y: pub.Y()}
+			for _, pr := range oracle.CheckSharing(ref.Ed25519, parts, newKeys, t2, &want) {
+				r.Violate("eddsa-resharing/chain/"+pr.Key, pr.What, seq)
+			}
+			keys, t, n = next, t2, n2
+		}
+		if !ok {
+			continue
+		}
+		r.Count("chains", 1)
+		r.Distinct("chain_shapes", strings.Join(seq, ""))
+		for _, sub := range oracle.Subsets(n, t+1) {
+			var ks []edkg.LocalPartySaveData
+			for _, i := range sub {
+				ks = append(ks, keys[i])
+			}
+			nw, err := netrun.New(netrun.Config{Proto: netrun.EddsaSigning, EdKeys: ks, Threshold: t, Msg: msg, Seed: r.Seed, Label: "chain-sign"})
+			if err != nil {
+				r.Violate("chain/sign-constructor", err.Error(), seq)
+				continue
+			}
+			_, e, pan := nw.RunFIFO()
+			r.Count("chain_signing_runs", 1)
+			if e != nil || len(pan) > 0 || len(nw.Nodes[0].Ends) != 1 {
+				r.Violate("eddsa-resharing/chain/"+strings.Join(seq, "")+"/cannot-sign", fmt.Sprint(e, pan), map[string]interface{}{"chain": seq, "subset": sub})
+				continue
+			}
+			for _, pr := range oracle.CheckEddsaSig(nw.Nodes[0].Ends[0].(*common.SignatureData), pub, msg, 0) {
+				r.Violate("eddsa-resharing/chain/signature/"+pr.Key, pr.What, map[string]interface{}{"chain": seq, "subset": sub})
+			}
+		}
+	}
+	if r.Tier == "thorough" {
+		ecChain(r)
+	}
+	_ = fix.PreParams
+}
+
+func ecChain(r *core.Run) {
+	base := scen.EcKey("small", 3, 1, r.Seed)
+	pub := base[0].ECDSAPub
+	keys := scen.CopyEcKeys(base)
+	t, n := 1, 3
+	pp := fix.PreParams()
+	for step, t2 := range []int{2, 1} {
+		n2 := t2 + 1
+		var newKeys []*big.Int
+		for i := 0; i < n2; i++ {
+			newKeys = append(newKeys, big.NewInt(int64(1000*(step+1)+i+1)))
+		}
+		cfg := netrun.Config{Proto: netrun.EcdsaResharing, EcKeys: keys[:t+1], Threshold: t, OldN: n, NewKeys: newKeys, NewThreshold: t2, Seed: r.Seed, Label: fmt.Sprint("ecchain", step), PreParams: pp[:n2]}
+		nw, err := netrun.New(cfg)
+		if err != nil {
+			r.Violate("ecdsa-resharing/chain/constructor", err.Error(), step)
+			return
+		}
+		_, e, pan := nw.RunFIFO()
+		if e != nil || len(pan) > 0 {
+			r.Violate("ecdsa-resharing/chain/error", fmt.Sprint(e, pan), step)
+			return
+		}
+		var next []eckg.LocalPartySaveData
+		var parts []oracle.Sharing
+		for _, nd := range nw.Nodes {
+			if nd.Role == "new" {
+				if len(nd.Ends) != 1 {
+					r.Violate("ecdsa-resharing/chain/no-result", "new member without a result", step)
+					return
+				}
+				s := nd.Ends[0].(*eckg.LocalPartySaveData)
+				next = append(next, *s)
+				parts = append(parts, oracle.EcSharing(s))
+			}
+		}
+		want := ref.Point{X: pub.X(), Y: pub.Y()}
+		for _, pr := range oracle.CheckSharing(ref.Secp256k1, parts, newKeys, t2, &want) {
+			r.Violate("ecdsa-resharing/chain/"+pr.Key, pr.What, step)
+		}
+		keys, t, n = next, t2, n2
+	}
+	r.Count("chains", 1)
+	msg := big.NewInt(424242)
+	nw, err := netrun.New(netrun.Config{Proto: netrun.EcdsaSigning, EcKeys: keys[:t+1], Threshold: t, Msg: msg, Seed: r.Seed, Label: "ecchain-sign"})
+	if err == nil {
+		_, e, pan := nw.RunFIFO()
+		r.Count("chain_signing_runs", 1)
+		if e != nil || len(pan) > 0 || len(nw.Nodes[0].Ends) != 1 {
+			r.Violate("ecdsa-resharing/chain/cannot-sign", fmt.Sprint(e, pan), nil)
+		} else {
+			for _, pr := range oracle.CheckEcdsaSig(nw.Nodes[0].Ends[0].(*common.SignatureData), pub, msg, 0) {
+				r.Violate("ecdsa-resharing/chain/signature/"+pr.Key, pr.What, nil)
+			}
+		}
+	}
+}
